@@ -215,6 +215,31 @@ pub fn run(args: &Args) -> i32 {
                 delivered += 1;
             }
         }
+        // notifications the behaviour queued but the swarm never took although the net is quiescent: the swarm is
+        // stuck on an earlier notification; the queued ones are lost although their targets may be open
+        let stuck: Vec<(u64, String)> = ctls[0].with(|p| {
+            p.queue
+                .iter()
+                .filter_map(|e| match e {
+                    ToSwarm::NotifyHandler { peer_id, handler, event } => {
+                        let open: Vec<ConnectionId> = p.established.get(peer_id).cloned().unwrap_or_default().into_iter().filter(|c| !closed0.contains(c)).collect();
+                        let target_open = match handler {
+                            NotifyHandler::One(c) => open.contains(c),
+                            NotifyHandler::Any => !open.is_empty(),
+                        };
+                        if target_open { Some((event.seq, format!("{handler:?}"))) } else { None }
+                    }
+                    _ => None,
+                })
+                .collect()
+        });
+        if !stuck.is_empty() {
+            check.violation(
+                "notifications-never-taken-from-behaviour",
+                format!("net quiescent but {} queued notifications with open targets were never taken from the behaviour (first: seq {} {})", stuck.len(), stuck[0].0, stuck[0].1),
+                json!({"case": case_idx, "buffer": buf, "emitted": emitted.len(), "stuck": stuck.iter().map(|(s, h)| format!("seq{s} {h}")).collect::<Vec<_>>()}),
+            );
+        }
         check.case(Sig::new().u64(net.trace.0).u64(buf as u64).0, delivered >= 5 && (parked_possible || dropped_closed > 0));
         check.distinct("distinct_interleavings", net.trace.0);
         check.count("notifications_emitted", emitted.len() as u64);
